@@ -166,6 +166,8 @@ def run(ctx) -> None:
     _carrier(ctx)
     _operators(ctx)
     _closest(ctx)
+    from ..rules import addduration as AD
+    AD.carry_blocks(ctx)       # Time.add/subtract run on DateTime.add -> add_duration's carry chain
     ctx.expect_min("UNITS.components", 2)
     ctx.expect_min("CARRIER", 5)
     ctx.expect_min("ORDER", 4)
